@@ -2,6 +2,7 @@
 use std::io::{self, Read, Write};
 
 mod data;
+mod names;
 
 fn unhex(s: &str) -> Vec<u8> {
     let s = s.trim();
@@ -40,6 +41,8 @@ fn main() {
         "list" => data::list(&args[1..]),
         "seq" => data::seq(&args[1..]),
         "typed" => data::typed(&args[1..]),
+        "tag" => names::tag(&args[1..]),
+        "subsys" => names::subsys(&args[1..]),
         other => { eprintln!("unknown scenario {other}"); std::process::exit(2); }
     });
     if let Err(e) = r {
